@@ -28,7 +28,8 @@ def gen_order(rng):
     chain.append("pr.%d" % pid)
     key = rng.choice(["k1", "k1", "k1", "bad", "-"])
     reqlen = rng.choice([0, 10, 1000, 1001, 5000])
-    method = "POST" if reqlen else "GET"
+    # a declared body is a body whatever the method
+    method = rng.choice(["POST", "POST", "PUT", "GET", "DELETE", "PATCH"]) if reqlen else "GET"
     ops = rwgen.response_ops(rng, total=rng.choice([0, 5, 50]), late_headers=False)
     return [rwgen.line("+".join(chain), method, rng.choice(["gzip", "-"]), key, reqlen, rng.choice(["cl", "chunked"]) if reqlen else "cl", ops)]
 
@@ -80,6 +81,8 @@ INVALID = {
     "headers": ["@set=b:1", "@request_set=s:x", "@set=l:a"],
     "custom-auth": ["", "@apiKey=s:", "@apiKey=i:5"],
     "no-such-plugin": [""],
+    # an entry whose name is missing (a mistyped `name:` key keeps its config): not a plugin
+    "": ["@apiKey=s:secret", "@max_request_body=i:10"],
     "Logging": [""],
 }
 
@@ -116,6 +119,10 @@ def check(ctx):
     n = 2000 if ctx.thorough() else 300
     episodes = C.load_corpus(ID) + [gen_order(ctx.rng) for _ in range(n)] + [gen_build(ctx.rng) for _ in range(2 * n)]
     bad = d.check(episodes, oracle=oracle, label="chain")
+    sess = [rwgen.session_episode(ctx.rng, ctx.rng.choice(["pr.1+sl.1000.100+hdr+pr.2", "log+pr.1+gz.5.10.text%2F+sl.1000.5000+pr.2", "hdr+pr.1"]), limit=100)
+            for _ in range(100 if ctx.thorough() else 20)]
+    d.check(sess, oracle=lambda e, o: rwgen.session_oracle(e, o) or [], label="chain-session")
+    ctx.cov["session_episodes"] = len(sess)
     rej = built = failed = 0
     nontriv = set()
     if bad == 0:
